@@ -38,7 +38,8 @@ RULE = ("gen(seed): receive window, scripted peer consumption steps then drain, 
         "defer tapes, max_write_buffer_size knob (often an exact-fit boundary), list of writes "
         "(sizes 0,1,..,2047,2048,2049,4096,4097,70000; bytes / memoryview of bytes|bytearray / "
         "itemsize 2,4,8 / sliced views) each followed by none|await own future|await an earlier "
-        "future|idle|sleep; plus a _StreamBuffer op sequence (exhaustive for short lengths, see "
+        "future|idle|sleep, interleaved with owner-cancels-a-queued-write-future ops, a read_bytes "
+        "pending on the same stream and peer->stream data; plus a _StreamBuffer op sequence (exhaustive for short lengths, see "
         "module doc). non-trivial = >=2 writes accepted AND a partial send, zero-window stall or "
         "spurious EAGAIN actually fired AND at least one write future was still pending when "
         "write() returned; distinct = distinct scenario hash")
@@ -292,6 +293,18 @@ def gen(rng, tier, index):
         ops.append(op)
         if rng.random() < 0.15:
             ops.append({"op": "c", "n": rng.choice([1, 2, window, window + 1, 2048, 100000])})
+        if rng.random() < 0.1:
+            # the owner stops waiting for a queued write (wait_for timeout): its future is
+            # cancelled, its bytes stay queued and more writes follow
+            ops.append({"op": "x", "k": rng.randrange(4)})
+    # a read pending on the same stream while writes are back-pressured (the peer sends
+    # nothing, or a little, so the read stays pending or completes in the middle)
+    if rng.random() < 0.35:
+        pos = rng.randrange(len(ops) + 1)
+        ops.insert(pos, {"op": "r", "n": rng.choice([1, 5, 1000]), "partial": rng.random() < 0.3})
+        for _ in range(rng.choice([0, 0, 1, 2])):
+            ops.insert(rng.randrange(pos + 1, len(ops) + 1),
+                       {"op": "ps", "n": rng.choice([1, 4, 5, 30])})
     # peer consumption script
     steps = []
     auto = rng.random() < 0.12
@@ -349,7 +362,7 @@ def validate(scn):
         if m is not None and (not isinstance(m, int) or m < 1):
             return False
         for op in scn["ops"]:
-            if not isinstance(op, dict) or op.get("op") not in ("w", "c"):
+            if not isinstance(op, dict) or op.get("op") not in ("w", "c", "x", "r", "ps"):
                 return False
             if op["op"] == "w" and (op.get("kind", "b") not in KINDS or int(op["n"]) < 0):
                 return False
@@ -406,6 +419,8 @@ def run(scn, full_log=False):
         st = {"acc": 0, "first_pending": 0, "pending_on_return": 0, "accepted_writes": 0,
               "inline": 0, "refused": 0, "front_large": False}
         futs = []  # (future, end_index, op index, size)
+        xc = set()  # indices into futs of futures cancelled by their owner
+        read_futs = []
         resolved_order = []
         ends = []  # (start, end, is_large) per accepted non-empty write
 
@@ -415,6 +430,9 @@ def run(scn, full_log=False):
             n = len(futs)
             while i < n and futs[i][0].done():
                 f, end, oi, size = futs[i]
+                if i in xc:
+                    i += 1  # settled by its owner; its bytes are still owed to the wire
+                    continue
                 if f.cancelled() or f.exception() is not None:
                     bad("write.future_failed", f"write op {oi}: future failed "
                         f"{'cancelled' if f.cancelled() else type(f.exception()).__name__} ({where})")
@@ -426,7 +444,7 @@ def run(scn, full_log=False):
                 i += 1
             st["first_pending"] = i
             for j in range(i + 1, n):
-                if futs[j][0].done():
+                if futs[j][0].done() and j not in xc:
                     bad("write.future_order", f"write op {futs[j][2]} resolved before earlier write "
                         f"op {futs[i][2]} ({where})")
                     break
@@ -501,7 +519,8 @@ def run(scn, full_log=False):
 
             def settled_cb(i):
                 def cb(f):
-                    resolved_order.append(i)
+                    if i not in xc:
+                        resolved_order.append(i)
                     check_futs(st["acc"], "at future callback")
                 return cb
 
@@ -516,6 +535,33 @@ def run(scn, full_log=False):
                 if op["op"] == "c":
                     if not peer.auto and peer.consume(max(1, int(op["n"]))):
                         probe("writer_side_consume")
+                    continue
+                if op["op"] == "x":
+                    cand = [k for k in range(len(futs)) if not futs[k][0].done()]
+                    if cand:
+                        k = cand[int(op.get("k", 0) or 0) % len(cand)]
+                        xc.add(k)
+                        futs[k][0].cancel()
+                        env.log.ev("x", futs[k][2])
+                        probe("owner_cancelled_queued_write")
+                        if k != len(futs) - 1:
+                            probe("owner_cancelled_write_with_writes_behind")
+                    continue
+                if op["op"] == "r":
+                    if not stream.reading():
+                        try:
+                            read_futs.append(stream.read_bytes(max(1, int(op.get("n", 1))),
+                                                               partial=bool(op.get("partial"))))
+                            probe("read_issued")
+                        except Exception as e:
+                            if stream.closed():
+                                bad("write.stream_closed", "stream closed by itself: "
+                                    f"error={stream.error!r}")
+                            else:
+                                bad("harness.read_raised", f"{type(e).__name__}: {e}")
+                    continue
+                if op["op"] == "ps":
+                    peer.send(b"z" * max(1, int(op.get("n", 1))))
                     continue
                 obj, raw = payload(op.get("kind", "b"), op["n"], op.get("seed", 0), op.get("off", 0))
                 size = len(raw)
@@ -566,6 +612,8 @@ def run(scn, full_log=False):
                 fut.add_done_callback(settled_cb(len(futs) - 1))
                 env.log.ev("w", oi, size, op.get("kind", "b"), done_now)
                 outcome.append(("ok", size, done_now))
+                if stream.reading() and queued - st["acc"] > 0:
+                    probe("read_pending_while_write_backlog")
                 if done_now:
                     st["inline"] += 1
                 else:
@@ -594,9 +642,10 @@ def run(scn, full_log=False):
                     elif then == "prev":
                         k = max(1, int(op.get("k", 1)))
                         j = max(0, len(futs) - 1 - k)
-                        if not futs[j][0].done():
-                            probe("await_pending_future")
-                        await futs[j][0]
+                        if j not in xc:
+                            if not futs[j][0].done():
+                                probe("await_pending_future")
+                            await futs[j][0]
                     elif then == "idle":
                         await loop.idle()
                     elif then == "sleep":
@@ -607,20 +656,30 @@ def run(scn, full_log=False):
                     break
                 if then != "none":
                     checkpoint("after " + then)
-            for f, end, oi, size in futs:
+            for k, (f, end, oi, size) in enumerate(futs):
+                if k in xc:
+                    continue
                 try:
                     await f
                 except Exception as e:
                     bad("write.future_failed", f"write op {oi}: {type(e).__name__}: {e}")
             await ctask
             await loop.idle()
+            if xc and any(futs[k][1] <= st["acc"] and k != len(futs) - 1 for k in xc):
+                probe("cancelled_write_flushed_with_writes_behind")
             checkpoint("at end")
             if st["acc"] != queued:
                 bad("write.incomplete_at_quiescence",
                     f"{queued} bytes queued, transport accepted {st['acc']}")
             if stream.closed():
                 bad("write.stream_closed", f"stream closed by itself: error={stream.error!r}")
+            # everything accepted must have reached the peer before the fd goes away (closing
+            # with unread inbound data resets the connection)
+            await peer.wait(lambda: len(peer.received) >= queued or peer.ended())
             stream.close()
+            for rf in read_futs:
+                if rf.done() and not rf.cancelled():
+                    rf.exception()
             await peer.wait_eof()
             if bytes(peer.received) != bytes(expected):
                 bad("write.peer_received_mismatch",
@@ -645,7 +704,12 @@ def run(scn, full_log=False):
         for r in env.errors():
             bad("write.error_logged", f"{r[0]} {r[1]} {r[2][:80]} {r[3]}", "write.error_logged")
         for m, e in env.loop_errors:
-            bad("write.loop_error", f"{m} {e}")
+            if e == "CancelledError" and xc and "write.<locals>.<lambda>" in str(m):
+                # write() attaches `lambda f: f.exception()` to its future; it raises when the
+                # owner cancels the future.  Noise at cancel time, unrelated to delivery.
+                probe("write_cancel_done_callback_raised")
+                continue
+            bad("write.loop_error", f"{m} {e}", f"write.loop_error/{e}")
         stats = env.stats()
         stats["probes"].update(probes)
         stats["probes"]["future_done_on_return"] = st["inline"]
